@@ -13,6 +13,22 @@ CLAIMED = {
             "trusted: Coq kernel, vm_compute; np.searchsorted/np.sort contracts modelled as count/sorted permutation; "
             "translator whitelist; harness printers. NaN scores excluded.",
             "Coq proof (induction over lists) + ast-regenerated tie lemma + vm_compute correspondence"),
+    "C17": ("7/C17",
+            "Coq theorems over all sample lists and targets about the model of utils.invert_pl_function (every returned "
+            "point lies in a crossing segment on the chord; all returned points are solutions whenever a sample touches "
+            "or two consecutive samples straddle the target; strictly increasing; inside the sampled range; strict sign "
+            "changes and non-final touches represented exactly once; closest-sample fallback with first-minimal-index "
+            "rule; one entry per target, scalar => bare array) and of Scores.threshold_at_metric (= that inversion at the "
+            "selected points; the three point-selection modes and their ValueError guards); model tied to the source by "
+            "model-vs-implementation correspondence (vm_compute) incl. recorded evaluation points and metric values",
+            "correspondence-only tie (no regenerated fragment: the function is NumPy broadcasting/nonzero/argmin "
+            "bookkeeping, modelled by hand). Exact-rational model: bit-exact comparison only on cases whose float "
+            "operations are all exact (decided per case), 2^-40 relative otherwise; fallback cases with rounded |y-t| are "
+            "left to the oracle. Completeness is claimed for strict sign changes and touches at non-final samples only: a "
+            "touch at the last sample is not reported when another crossing exists (Example in Props/C17.v; the property "
+            "text does not claim all solutions). The fallback's (1,1) shape is cosmetic and not checked. NaN metric "
+            "values (empty class) are outside.",
+            "Coq proof (lists, nra/field over Q) + vm_compute correspondence + exact-Fraction oracle with recording callable"),
 }
 PENDING = {}
 
